@@ -146,6 +146,12 @@ Fixpoint view_after (ops : list sinkop) (d pid : N) (v : option (list attr)) : o
   | Reach d' p' _ a _ :: t => view_after t d pid (if (d' =? d) && (p' =? pid) then Some a else v)
   end.
 
+(* a best-only session keeps a Plain family map (ExportMap::new gets the Add-Path families) *)
+Definition not_addpath (e : emap) : Prop := match e with EAddPath _ => False | _ => True end.
+
+(* the neighbour holds a route *)
+Definition has_entry (v : option (list attr)) : bool := match v with Some _ => true | None => false end.
+
 (* an operation that concerns (dest, pid) *)
 Definition touches (d pid : N) (op : sinkop) : bool :=
   match op with
